@@ -60,7 +60,10 @@ X0R == TLCEval([i \in 1..N |-> RInt(x0[i])])
 Feasible0 == gk = "box" => \A i \in 1..N : RLe(BoxLo, RInt(x0[i])) /\ RLe(RInt(x0[i]), BoxHi)
 
 Init ==
-  /\ d \in Ds /\ c \in Cs /\ gk \in Gkinds /\ lam \in LamVals /\ x0 \in X0s /\ adiv \in AlphaDivs
+  /\ d \in Ds /\ c \in Cs /\ gk \in Gkinds /\ lam \in LamVals /\ adiv \in AlphaDivs
+  \* initial points: the configured ones, or (for d = (1,1)) the minimiser of the smooth part, where
+  \* grad f(x0) = 0 although the proximal step still moves x
+  /\ (x0 \in X0s \/ (d = <<1, 1>> /\ x0 = c))
   /\ Bounded /\ Feasible0
   /\ x = TLCEval([i \in 1..Len(d) |-> RInt(x0[i])]) /\ iter = 0 /\ moved = TRUE
 Done == iter >= MaxIter \/ ~moved          \* tol = 0: resid = ||x - x_old||/alpha <= 0 iff nothing moved
